@@ -365,13 +365,29 @@ def run(prog, tier):
     obs.append(struct_ob("slice-layout", qual(c3, init), not why_,
                          "bounds, labels and slices must all be mean-first then covariance: " + "; ".join(why_), REL, init.lineno))
     # selector wiring
-    ifs = [s for s in init.body if isinstance(s, ast.If) and U(s.test) == "cross_val"]
-    ok = False
-    if len(ifs) == 1:
-        a = {U(s.targets[0]): U(s.value) for s in ifs[0].body if isinstance(s, ast.Assign)}
-        b = {U(s.targets[0]): U(s.value) for s in ifs[0].orelse if isinstance(s, ast.Assign)}
-        ok = (a == {"self.model_selector": "self.loo_likelihood", "self.model_selector_gradient": "self.loo_likelihood_gradient"}
-              and b == {"self.model_selector": "self.marginal_likelihood", "self.model_selector_gradient": "self.marginal_likelihood_gradient"})
+    # per attribute: (value when cross_val, value otherwise), from `if cross_val:` arms or from conditional expressions
+    a, b = {}, {}
+
+    def wire(stmts, truth):
+        for s_ in stmts:
+            if isinstance(s_, ast.If) and U(s_.test) in ("cross_val", "not cross_val") and truth is None:
+                pos = U(s_.test) == "cross_val"
+                wire(s_.body, pos)
+                wire(s_.orelse, not pos)
+            elif isinstance(s_, ast.Assign) and len(s_.targets) == 1 and U(s_.targets[0]) in ("self.model_selector", "self.model_selector_gradient"):
+                t_, v_ = str(U(s_.targets[0])), s_.value
+                if truth is None and isinstance(v_, ast.IfExp) and U(v_.test) in ("cross_val", "not cross_val"):
+                    pos = U(v_.test) == "cross_val"
+                    a.setdefault(t_, []).append(U(v_.body if pos else v_.orelse))
+                    b.setdefault(t_, []).append(U(v_.orelse if pos else v_.body))
+                elif truth is None:
+                    a.setdefault(t_, []).append(U(v_))
+                    b.setdefault(t_, []).append(U(v_))
+                else:
+                    (a if truth else b).setdefault(t_, []).append(U(v_))
+    wire(init.body, None)
+    ok = (a == {"self.model_selector": ["self.loo_likelihood"], "self.model_selector_gradient": ["self.loo_likelihood_gradient"]}
+          and b == {"self.model_selector": ["self.marginal_likelihood"], "self.model_selector_gradient": ["self.marginal_likelihood_gradient"]})
     obs.append(struct_ob("selector-wiring", qual(c3, init), ok,
                          "the selector and its value-and-gradient form must be the same criterion on both arms of cross_val", REL, init.lineno))
     c4, bc = prog.method("GpRegressor", "bfgs_cost_func")
